@@ -8,7 +8,7 @@ PROP = dict(
     # the compared observable (all token spans and lexer diagnostics of a whole file) is more than the
     # property fixes; the property itself is checked on every diagnostic by the harness's oracle
     mismatch_is_violation=False,
-    rule="49 templates (21, + 8 for every postfix form — method call, call, index, `?`, `!`, member — on a PARENTHESISED operand, whose label must start at the `(`, + 20 for the diagnostic kinds the coverage report found unexecuted: annotation vs pattern, `%`/`%=` right operand, non-bool operand, clashes with builtin / prelude / host names, duplicate interface methods / output types / variants / fields / parameters, interface implemented for a non-generic instance, interface method without Self, #host+#foreign, foreign without ffi, struct pattern arity, `()` pattern, out-of-range literal pattern, unresolvable `use`), labels in the prelude file checked against the prelude text, and a hard probe for D93 (locals-limit diagnostic names line 3, not 0); one per diagnostic kind the generator can provoke (unrecognized token: ASCII, 2-byte and 4-byte character; "
+    rule="55 templates (21, + 2 for qualified variant patterns (D106: the label covers `Cl.Rd`), + 4 for a missing closing token at end of file (D111: rejected, label at the end of input where the closer was expected), + 8 for every postfix form — method call, call, index, `?`, `!`, member — on a PARENTHESISED operand, whose label must start at the `(`, + 20 for the diagnostic kinds the coverage report found unexecuted: annotation vs pattern, `%`/`%=` right operand, non-bool operand, clashes with builtin / prelude / host names, duplicate interface methods / output types / variants / fields / parameters, interface implemented for a non-generic instance, interface method without Self, #host+#foreign, foreign without ffi, struct pattern arity, `()` pattern, out-of-range literal pattern, unresolvable `use`), labels in the prelude file checked against the prelude text, and a hard probe for D93 (locals-limit diagnostic names line 3, not 0); one per diagnostic kind the generator can provoke (unrecognized token: ASCII, 2-byte and 4-byte character; "
          "unexpected token; integer literal out of range, plain and negated with `_`; unrecognized escape in `\"…\"`, `'…'`, after "
          "non-ASCII text, with a non-ASCII escaped character, in a triple-quoted literal, bad `\\x`; unresolved name; type conflict "
          "with annotation and between operands; empty parentheses; non-exhaustive match; redundant arm; assignment to an "
